@@ -3,7 +3,8 @@
 //!
 //! Case (fresh child): 1..8 scheduler threads, each with 2..4 coroutines out of
 //! {Busy(ms) = a checksum over a fixed number of iterations worth about ms of CPU, never
-//! yielding; Yielding(n) = n voluntary yields; SyscallBusy(ms) = the same computation after
+//! yielding; YieldThenBusy / SectionThenBusy = the same after a few quick yields or a short
+//! system call section (the coroutine leaves Running and is back within the slice); Yielding(n) = n voluntary yields; SyscallBusy(ms) = the same computation after
 //! entering a system call state}.
 //! Oracle:
 //!  * every coroutine completes with the value the same function yields when called
@@ -33,6 +34,10 @@ pub enum Co {
     Busy(u8),
     Yielding(u8),
     SyscallBusy(u8),
+    /// yields n times in quick succession, then computes for ms without yielding
+    YieldThenBusy(u8, u8),
+    /// enters a system call state and leaves it again at once, then computes for ms
+    SectionThenBusy(u8),
 }
 
 #[derive(Debug, Clone, Serialize, Deserialize)]
@@ -45,6 +50,8 @@ pub fn strategy() -> impl Strategy<Value = Case> {
         4 => (30u8..200).prop_map(Co::Busy),
         3 => (1u8..6).prop_map(Co::Yielding),
         2 => (30u8..120).prop_map(Co::SyscallBusy),
+        2 => (1u8..5, 100u8..200).prop_map(|(n, ms)| Co::YieldThenBusy(n, ms)),
+        2 => (100u8..200).prop_map(Co::SectionThenBusy),
     ];
     // most threads start with a long Busy coroutine (the shape the non-trivial rule asks for)
     proptest::collection::vec((proptest::option::weighted(0.75, (100u8..200).prop_map(Co::Busy)), proptest::collection::vec(co, 1..4)), 1..9).prop_map(|threads| Case {
@@ -148,7 +155,7 @@ pub fn child_main() -> i32 {
         let my_base = base;
         for (k, c) in cos.iter().enumerate() {
             let iters = match c {
-                Co::Busy(ms) | Co::SyscallBusy(ms) => u64::from(*ms) * per_ms,
+                Co::Busy(ms) | Co::SyscallBusy(ms) | Co::SectionThenBusy(ms) | Co::YieldThenBusy(_, ms) => u64::from(*ms) * per_ms,
                 Co::Yielding(n) => u64::from(*n) * 1000,
             };
             plan.push((ti, my_base + k, *c, iters));
@@ -193,6 +200,19 @@ pub fn child_main() -> i32 {
                                             sus.suspend();
                                         }
                                         v
+                                    }
+                                    Co::YieldThenBusy(n, ms) => {
+                                        for _ in 0..n {
+                                            sus.suspend();
+                                        }
+                                        checksum(u64::from(ms) * per_ms, ix as u64)
+                                    }
+                                    Co::SectionThenBusy(ms) => {
+                                        if let Some(co) = SchedulableCoroutine::current() {
+                                            co.syscall((), SyscallName::write, SyscallState::Executing).expect("enter syscall state");
+                                            co.running().expect("leave syscall state");
+                                        }
+                                        checksum(u64::from(ms) * per_ms, ix as u64)
                                     }
                                 };
                                 recs[ix].value.store(v, Ordering::SeqCst);
@@ -242,7 +262,7 @@ pub fn child_main() -> i32 {
     let mut cos_json = vec![];
     for (ti, ix, c, iters) in &plan {
         let want = match c {
-            Co::Busy(_) | Co::SyscallBusy(_) => checksum(*iters, *ix as u64),
+            Co::Busy(_) | Co::SyscallBusy(_) | Co::YieldThenBusy(_, _) | Co::SectionThenBusy(_) => checksum(*iters, *ix as u64),
             Co::Yielding(n) => {
                 let mut v = *ix as u64;
                 for _ in 0..*n {
@@ -276,7 +296,8 @@ pub fn exec_once(c: &Case) -> Outcome {
     o = o
         .class_if(t >= 4, "4+scheduler-threads")
         .class_if(c.threads.iter().any(|cs| cs.iter().any(|x| matches!(x, Co::SyscallBusy(_)))), "has-syscall-state-busy")
-        .class_if(c.threads.iter().any(|cs| cs.iter().any(|x| matches!(x, Co::Busy(ms) if *ms >= 100))), "has-busy>=100ms");
+        .class_if(c.threads.iter().any(|cs| cs.iter().any(|x| matches!(x, Co::Busy(ms) if *ms >= 100))), "has-busy>=100ms")
+        .class_if(c.threads.iter().any(|cs| cs.iter().any(|x| matches!(x, Co::YieldThenBusy(..) | Co::SectionThenBusy(_)))), "busy-after-a-quick-return-to-running");
     match &r.end {
         End::Exit(0) => {}
         End::Exit(3) => {
@@ -347,6 +368,27 @@ pub fn exec_once(c: &Case) -> Outcome {
                     return o;
                 }
             }
+            Co::YieldThenBusy(n, ms) => {
+                // its own n yields are suspensions too; the busy phase needs at least one more
+                let r2s = a["r2s"].as_u64().unwrap_or(0);
+                if r2s <= u64::from(n) {
+                    o.set_fail(
+                        "C22/long-running-coroutine-not-preempted",
+                        format!("coroutine {ix} yields {n} times and then computes for {ms} ms without yielding; it was suspended {r2s} time(s) in all, i.e. never during its busy phase"),
+                    );
+                    return o;
+                }
+            }
+            Co::SectionThenBusy(ms) => {
+                let r2s = a["r2s"].as_u64().unwrap_or(0);
+                if r2s == 0 {
+                    o.set_fail(
+                        "C22/long-running-coroutine-not-preempted",
+                        format!("coroutine {ix} passes through a short system call section and then computes for {ms} ms without yielding; it was never suspended"),
+                    );
+                    return o;
+                }
+            }
             Co::SyscallBusy(ms) => {
                 let (enter, leave, th) = (u(&a["sys_enter"]), u(&a["sys_leave"]), u(&a["sys_thread"]));
                 if th == u64::MAX {
@@ -400,7 +442,7 @@ pub fn main(args: &Args) -> i32 {
         &RunCfg {
             property: "C22",
             sub: "preemption",
-            rule: "fresh child per case: 1..8 scheduler threads x 2..4 coroutines out of Busy(30..200 ms), Yielding(1..5), SyscallBusy(30..120 ms); non-trivial = >= 4 threads each with a Busy coroutine",
+            rule: "fresh child per case: 1..8 scheduler threads x 2..4 coroutines out of Busy(30..200 ms), Yielding(1..5), SyscallBusy(30..120 ms), YieldThenBusy(1..4 yields, 100..200 ms), SectionThenBusy(100..200 ms); non-trivial = >= 4 threads each with a Busy coroutine",
             seed: args.seed,
             cases: args.cases(120, 2_000),
             shards: 4,
